@@ -18,7 +18,12 @@ CFG = {
             "shapes (absent, unlisted, listed, listed first / last / middle, invalid entries, empty, random), then random "
             "lists/requests with every comma spacing (spaces, tabs, U+00A0), alternative IPv6 spellings of listed "
             "addresses, header-name case, unread fields (X-Real-IP, Forwarded), a second X-Forwarded-For field. "
-            "End-to-end cases `bl_e2e`: the real `humphrey` binary (repo/target/release/humphrey, when built) started "
+            "LONG CHAINS (own block): X-Forwarded-For values of 1..5, 15..18, 31..34, 63..66, 100, 128, 129, 256, 257, 1000, 1024 entries "
+            "(thorough: 49 lengths up to 4096) of distinct unlisted IPv4/IPv6 addresses with ONE listed address at the far left, the "
+            "far right, the middle, and on both sides of every power of two (4..4096), of 10, 100, 1000 counted from either end; "
+            "with no listed address (served); with both ends listed; with and without unparsable entries, with plain and varied "
+            "spacing/spelling; modes, peers, routes, cache states and lists rotating, the peer unlisted (listed in 1 of 16). "
+            "End-to-end cases `bl_e2e` (incl. chains of 17, 100, 1000 entries with the listed address first or deep inside): the real `humphrey` binary (repo/target/release/humphrey, when built) started "
             "from a generated configuration file on a free port, clients bound to chosen sources observing bytes/EOF. "
             "Non-trivial = non-empty list and (listed peer or an X-Forwarded-For field); distinct = distinct case line.",
     "exhaustive": True,
